@@ -1,4 +1,32 @@
 TEXTS = {
+    "C04": {
+        "text": "Machine-checked Lean 4 theorem C04_holds: for every wiring whose loop notifies after stopped(), every "
+                "run of the actor model is accepted by monC04 (announcement): awaiting any clone of the address, "
+                "halt, try_halt, join and consume resolve only after the stopped callback has finished - Ok / the "
+                "value exactly when termination was graceful, the termination error only when the actor failed - "
+                "for every awaiter, created before or after termination. Invariants: the latch leaves `pending` "
+                "exactly at the end of the task (fired iff graceful), the join result exists only after a graceful "
+                "end, the monitor's flags are functions of the loop phase, the monitor-side operation table equals "
+                "the model's. The order stopped()/notify() is re-extracted from both loops on every run; the "
+                "negation is proved for the early-notify wiring by a concrete witness.",
+        "design_ref": "DESIGN.md §5 C04",
+        "note": "Partial: the drain-barrier clauses (monC04q) are checked on real traces, not proved. Trusted: Lean "
+                "kernel + axioms; latch/oneshot/Shared model validated by trace acceptance.",
+        "technique": "Lean 4 proof (latch/result state invariants + flag/phase simulation) + regenerated wiring + checked trace correspondence",
+    },
+    "C17": {
+        "text": "Machine-checked Lean 4 theorem C17_holds: for every wiring whose loop notifies after stopped(), every "
+                "run of the actor model is accepted by monC17: join / consume yield the actor value only after the "
+                "actor terminated gracefully, in its final state (the digest equals the fold of everything handled by "
+                "that value, stopped() seen), and at most once per actor - for any mix of submissions, joins "
+                "(repeated, concurrent), consume, detach and any termination cause. Builds on the C04 invariants plus "
+                "log/result coupling (monitor fold = model log, value handed out iff result slot emptied).",
+        "design_ref": "DESIGN.md §5 C17",
+        "note": "Partial: the None clauses and 'resolves exactly when terminated' (monC17n) are trace-checked. The "
+                "harness also exercises join futures that are created and dropped unpolled. Trusted: Lean kernel + "
+                "axioms; join-slot model (async mutex + JoinHandle) validated by trace acceptance.",
+        "technique": "Lean 4 proof (result-slot and log refinement on top of the latch invariants) + regenerated wiring + checked trace correspondence",
+    },
     "C13": {
         "text": "Machine-checked Lean 4 theorem C13_holds (no wiring hypothesis): every run of the actor model with an "
                 "attached stream (empty, finite, never-ending, never-ready, bursty; messages interleaved; both "
@@ -124,6 +152,6 @@ TEXTS = {
 _PENDING = "check under construction in this round: model + theorem not yet wired into ./check (see DESIGN.md build order); not claimed until its three obligations run end to end"
 NOT_APPLICABLE = [
     {"property_id": p, "reason": _PENDING}
-    for p in ["C01", "C02", "C04", "C05", "C06", "C08", "C09", "C10", "C11",
-              "C16", "C17"]
+    for p in ["C01", "C02", "C05", "C06", "C08", "C09", "C10", "C11",
+              "C16"]
 ]
